@@ -373,10 +373,84 @@ class PhaseKeyBinding(Job):
         return None
 
 
+class ReplayAfterLongSession(Job):
+    """'never delivers a phase twice' must not wear off: after a session of n messages (so that any bounded record of what has been seen would
+    have rolled over) the server replays one stored mailbox message - which one, and to whom, is the solver's choice - and nothing is delivered
+    to the application a second time"""
+    functions = ["the composed client as in the tamper jobs; _mailbox.Mailbox (record of processed phases), _boss.Boss (in-order phase buffer), _receive.Receive"]
+    shadows = ["ideal PAKE/AEAD, fake ClientService (env/client.py)"]
+    must_reach = ("nt:replayed",)
+
+    def __init__(self, n):
+        self.n = n
+        self.name = "replay_after_long_session_%d" % n
+        self.bounds = dict(messages_from_B=n, messages_from_A=1, replayed="any one of the first 4, the last 2 or the middle stored mailbox messages (choose), to either client (choose)")
+
+    def build(self):
+        sim = Sim(modes=("set", "set"), nmsg=(1, self.n))
+        for _ in range(6):      # (Sim.canonical runs at most 400 steps at a time)
+            if not sim.canonical(honest_policy(close=False)):
+                break
+        sim.settle()
+        return sim
+
+    def candidates(self, sim):
+        msgs = sim.mailbox_msgs(sim.cl[0])
+        idx = sorted(set([0, 1, 2, 3, len(msgs) // 2, len(msgs) - 2, len(msgs) - 1]) & set(range(len(msgs))))
+        return msgs, idx
+
+    def judge(self, sim):
+        for i, c in enumerate(sim.cl):
+            vs = [e for e in c.ev if e[0] == "versions"]
+            if len(vs) > 1:
+                return "%s was handed the peer's versions %d times" % (c.name, len(vs))
+            got = [e[1] for e in c.ev if e[0] == "message"]
+            want = [payload("AB"[1 - i], k) for k in range(sim.nmsg[1 - i])]
+            if got != want:
+                return "%s received %d messages (%r...), its peer sent %d" % (c.name, len(got), got[-2:], len(want))
+            if c.errors:
+                return "%s: %r" % (c.name, c.errors[0])
+        return None
+
+    def scenario(self):
+        sim = self.build()
+        try:
+            check(self.judge(sim) is None, "honest long session: " + str(self.judge(sim)))
+            msgs, idx = self.candidates(sim)
+            k = idx[eng().choose(len(idx), "which")]
+            who = eng().choose(2, "to")
+            eng().inputs.update(which=k, to=who)
+            s_, ph, body = msgs[k]
+            sim.cl[who].rx({"type": "message", "side": s_, "phase": ph, "body": body})
+            sim.settle()
+            p = self.judge(sim)
+            check(p is None, "after the server replayed stored message #%d (%s/%s) to %s: %s" % (k, s_, ph, "AB"[who], p))
+            eng().note("nt:replayed")
+        finally:
+            sim.close_world()
+
+    def key(self, inp, label):
+        return label.split(":")[0][:60]
+
+    def replay(self, inp, label):
+        sim = self.build()
+        try:
+            msgs, idx = self.candidates(sim)
+            s_, ph, body = msgs[inp["which"]]
+            sim.cl[inp["to"]].rx({"type": "message", "side": s_, "phase": ph, "body": body})
+            sim.settle()
+            p = self.judge(sim)
+            if p:
+                return "session of %d messages, then the server replays stored message #%d (side %s, phase %s) to %s: %s" % (self.n, inp["which"], s_, ph, "AB"[inp["to"]], p)
+            return None
+        finally:
+            sim.close_world()
+
+
 def jobs(tier):
     thorough = tier == "thorough"
     from harness.phase_dispatch import HoldBack
-    J = [PhaseKeyBinding(), HoldBack()]      # ("encrypted for exactly that phase": a dilate-N plaintext never reaches the application as message N)
+    J = [PhaseKeyBinding(), HoldBack()] + [ReplayAfterLongSession(n) for n in ((20, 70, 150, 300) if thorough else (20, 70, 150))]      # ("encrypted for exactly that phase": a dilate-N plaintext never reaches the application as message N)
     QUICK = [c for c in CONFIGS if c != "alloc-input"]       # (allocate/input entry is exercised in the thorough tier; quick keeps the three set/set orders)
     for cfg in (ALL_CONFIGS if thorough else QUICK):
         n = len(canonical(cfg, ALL_CONFIGS, False))
